@@ -33,7 +33,10 @@ def get(name):
 
     for field in fields:
         if name == field[0].lower():
-            f = field[1]()
+            try:
+                f = field[1]()
+            except TypeError:
+                verif.util.error("Field '%s' needs a value (e.g. %s:<value>)" % (name, name))
     if f is None:
         f = Other(name)
     return f
